@@ -353,6 +353,17 @@ def ingredients(d, st, s, nlp, fake, tags):
             continue
         n = min(len(tv), len(pv))
         per = {"control": 1, "control-": 1, "integrator": M * (refine or 1), "integrator_roots": M * d["degree"]}[grid]
+        # horizon symbols inside a sampled expression are the same numbers at every point of every grid
+        try:
+            Tv = float(np.array(fake.value(st.value(st.T))).reshape(-1)[0]); t0v = float(np.array(fake.value(st.value(st.t0))).reshape(-1)[0])
+            for nm_, sy_, wv_ in (("T", st.T, Tv), ("t0", st.t0, t0v), ("tf", st.tf, t0v + Tv), ("t-t0", st.t - st.t0, None)):
+                got_ = np.array(fake.value(st.sample(sy_, grid=grid, **kw)[1])).reshape(-1)
+                want_ = np.full(got_.shape, wv_) if wv_ is not None else (tv[:len(got_)] - t0v)
+                if len(got_) != len(tv) or not NL.close(got_, want_, 1e-10):
+                    vios.append(dict(sig="value:ingredient:horizon:%s" % grid, tags=tags + ["grid=%s" % gtag], detail="sample(%s) on this grid gives %s, expected %s" % (nm_, np.round(got_, 6).tolist()[:6], np.round(want_, 6).tolist()[:6])))
+                    break
+        except Exception:
+            pass
         # the returned time stamps ARE the sampled time: sample(t) on the same grid, entry by entry; on the control
         # grids they are the control nodes themselves
         try:
